@@ -14,6 +14,7 @@ package lnwallet
 
 import (
 	"bufio"
+	"bytes"
 	"fmt"
 	"math/rand"
 	"os"
@@ -23,6 +24,7 @@ import (
 	"testing"
 
 	"github.com/btcsuite/btcd/btcec/v2"
+	"github.com/btcsuite/btcd/btcec/v2/schnorr"
 	"github.com/btcsuite/btcd/txscript/v2"
 	"github.com/btcsuite/btcd/wire/v2"
 	"github.com/lightningnetwork/lnd/chainntnfs"
@@ -42,6 +44,32 @@ type c05Run struct {
 	probeID int
 	negLeft int
 	sample  int // run a probe with probability sample/100
+	codec   bool // build inputs from descriptors that went through the sign descriptor codec
+	nCodec  int
+}
+
+// rt returns the descriptor as it comes back from the node's persistence when
+// c.codec is set: input.WriteSignDescriptor / ReadSignDescriptor, plus what the
+// contract court's taproot briefcase restores (control block; tap tweak of the
+// anchor).  The real briefcase / resolver round trip is exercised by the
+// contract-court stream (harness/overlay/contractcourt/zz_c05_verif_test.go);
+// here the same loss of fields is applied to the resolutions of the long
+// histories of this stream.
+func (c *c05Run) rt(sd input.SignDescriptor) input.SignDescriptor {
+	if !c.codec {
+		return sd
+	}
+	var b bytes.Buffer
+	if err := input.WriteSignDescriptor(&b, &sd); err != nil {
+		return input.SignDescriptor{}
+	}
+	var out input.SignDescriptor
+	if err := input.ReadSignDescriptor(&b, &out); err != nil {
+		return input.SignDescriptor{}
+	}
+	out.ControlBlock = sd.ControlBlock
+	out.TapTweak = sd.TapTweak
+	return out
 }
 
 func (c *c05Run) pf(format string, a ...interface{}) { fmt.Fprintf(c.w, format, a...) }
@@ -78,11 +106,23 @@ func (c *c05Run) sweep(x int, ctx, kind string, mk func() input.Input, actual *w
 		}
 		sd := inp.SignDesc()
 		c.spendID++
-		c.pf("%s", c0405SpendLine(c.spendID, ctx, kind, fmt.Sprint(inp.WitnessType()), variant, res.tx,
+		line := c0405SpendLine(c.spendID, ctx, kind, fmt.Sprint(inp.WitnessType()), variant, res.tx,
 			inp.OutPoint().Index, sd.Output.Value, actual.Value,
-			string(sd.Output.PkScript) == string(actual.PkScript), spk, ws, wit, res.engine))
+			string(sd.Output.PkScript) == string(actual.PkScript), spk, ws, wit, res.engine)
+		if spk == "p2tr" && ws == "-" {
+			// key-path spend: does the descriptor's tap tweak lead to the output key?
+			line = strings.Replace(line, " spk=", " kp="+c05KeyPathMatch(sd, actual.PkScript)+" spk=", 1)
+		}
+		c.pf("%s", line)
 	}
 	run(nil)
+	// the same spend from the descriptor as reloaded from disk
+	c.nCodec++
+	if c.nCodec%2 == 0 {
+		c.codec = true
+		run(&c0405Mut{name: "reload"})
+		c.codec = false
+	}
 	if c.negLeft <= 0 || strings.HasSuffix(kind, "Agg") {
 		return
 	}
@@ -111,6 +151,28 @@ func (c *c05Run) presigned(ctx, kind, variant string, tx *wire.MsgTx, actual *wi
 	c.spendID++
 	c.pf("%s", c0405SpendLine(c.spendID, ctx, kind, "presigned", variant, tx,
 		tx.TxIn[0].PreviousOutPoint.Index, recAmt, actual.Value, true, spk, ws, wit, engine))
+}
+
+
+// c05KeyPathMatch tells whether the taproot output key is the descriptor's
+// (tweaked) key with the descriptor's TapTweak applied (1 / 0; "-" if not
+// applicable).
+func c05KeyPathMatch(sd *input.SignDescriptor, pkScript []byte) string {
+	if sd == nil || !txscript.IsPayToTaproot(pkScript) || sd.KeyDesc.PubKey == nil || len(pkScript) != 34 {
+		return "-"
+	}
+	pub := sd.KeyDesc.PubKey
+	switch {
+	case sd.SingleTweak != nil:
+		pub = input.TweakPubKeyWithTweak(pub, sd.SingleTweak)
+	case sd.DoubleTweak != nil:
+		pub = input.DeriveRevocationPubkey(pub, sd.DoubleTweak.PubKey())
+	}
+	out := txscript.ComputeTaprootOutputKey(pub, sd.TapTweak)
+	if bytes.Equal(schnorr.SerializePubKey(out), pkScript[2:34]) {
+		return "1"
+	}
+	return "0"
 }
 
 func c05HtlcList(htlcs []channeldb.HTLC, claimed map[int32]int64) string {
@@ -182,7 +244,7 @@ func (c *c05Run) localClose(x int, h uint64, s *LocalForceCloseSummary, fpk int6
 			st2 = []string{"bs:" + peer + ".ms", "bs:" + xn + ".ms"}
 		}
 		if ct.IsTaproot() {
-			st2 = []string{"musig(A.ms,B.ms)"}
+			st2 = []string{"musig(A.ms+B.ms)"}
 		}
 		wit := terms.renderWitness(w, n, st2, nil)
 		engine := c0405Exec(tx, 0, map[wire.OutPoint]*wire.TxOut{st.FundingOutpoint: fundOut})
@@ -220,7 +282,7 @@ func (c *c05Run) localClose(x int, h uint64, s *LocalForceCloseSummary, fpk int6
 			wt = input.CommitmentTimeLock
 		}
 		mk := func() input.Input {
-			sd := cr.SelfOutputSignDesc
+			sd := c.rt(cr.SelfOutputSignDesc)
 			op := cr.SelfOutPoint
 			if hasLease {
 				return input.NewCsvInputWithCltv(&op, wt, &sd, c05Height, cr.MaturityDelay, lease)
@@ -256,6 +318,7 @@ func (c *c05Run) localClose(x int, h uint64, s *LocalForceCloseSummary, fpk int6
 			if r.SignDetails != nil {
 				mk := func() input.Input {
 					sdt := *r.SignDetails
+					sdt.SignDesc = c.rt(sdt.SignDesc)
 					if ct.IsTaproot() {
 						v := input.MakeHtlcSecondLevelTimeoutTaprootInput(stx, &sdt, c05Height)
 						return &v
@@ -278,7 +341,7 @@ func (c *c05Run) localClose(x int, h uint64, s *LocalForceCloseSummary, fpk int6
 				wt = input.HtlcOfferedTimeoutSecondLevel
 			}
 			mk := func() input.Input {
-				sd := r.SweepSignDesc
+				sd := c.rt(r.SweepSignDesc)
 				op := r.ClaimOutpoint
 				if hasLease {
 					return input.NewCsvInputWithCltv(&op, wt, &sd, c05Height, r.CsvDelay, lease)
@@ -319,6 +382,7 @@ func (c *c05Run) localClose(x int, h uint64, s *LocalForceCloseSummary, fpk int6
 			if r.SignDetails != nil {
 				mk := func() input.Input {
 					sdt := *r.SignDetails
+					sdt.SignDesc = c.rt(sdt.SignDesc)
 					if ct.IsTaproot() {
 						v := input.MakeHtlcSecondLevelSuccessTaprootInput(stx, &sdt, pre, c05Height)
 						return &v
@@ -341,7 +405,7 @@ func (c *c05Run) localClose(x int, h uint64, s *LocalForceCloseSummary, fpk int6
 				wt = input.HtlcAcceptedSuccessSecondLevel
 			}
 			mk := func() input.Input {
-				sd := r.SweepSignDesc
+				sd := c.rt(r.SweepSignDesc)
 				op := r.ClaimOutpoint
 				if hasLease {
 					return input.NewCsvInputWithCltv(&op, wt, &sd, c05Height, r.CsvDelay, lease)
@@ -382,7 +446,7 @@ func (c *c05Run) anchor(x int, ctx string, ar *AnchorResolution, commitTx *wire.
 		wt = input.TaprootAnchorSweepSpend
 	}
 	mk := func() input.Input {
-		sd := ar.AnchorSignDescriptor
+		sd := c.rt(ar.AnchorSignDescriptor)
 		op := ar.CommitAnchor
 		return input.NewBaseInput(&op, wt, &sd, c05Height)
 	}
@@ -459,7 +523,7 @@ func (c *c05Run) remoteClose(x int, src string, rc channeldb.ChannelCommitment,
 			wt = input.CommitmentNoDelay
 		}
 		mk := func() input.Input {
-			sd := cr.SelfOutputSignDesc
+			sd := c.rt(cr.SelfOutputSignDesc)
 			op := cr.SelfOutPoint
 			if hasLease {
 				return input.NewCsvInputWithCltv(&op, wt, &sd, c05Height, cr.MaturityDelay, lease)
@@ -494,7 +558,7 @@ func (c *c05Run) remoteClose(x int, src string, rc channeldb.ChannelCommitment,
 				wt = input.HtlcOfferedRemoteTimeout
 			}
 			mk := func() input.Input {
-				sd := r.SweepSignDesc
+				sd := c.rt(r.SweepSignDesc)
 				op := r.ClaimOutpoint
 				return input.NewCsvInputWithCltv(&op, wt, &sd, c05Height, r.CsvDelay, r.Expiry)
 			}
@@ -514,7 +578,7 @@ func (c *c05Run) remoteClose(x int, src string, rc channeldb.ChannelCommitment,
 			payHash := ht.RHash[:]
 			pre := p.preimages[ht.RHash]
 			mk := func() input.Input {
-				sd := r.SweepSignDesc
+				sd := c.rt(r.SweepSignDesc)
 				op := r.ClaimOutpoint
 				switch {
 				case ct.IsTaprootFinal():
